@@ -309,11 +309,13 @@ func main() {
 	checkReg(res, drv, rng, f.Seed, budget)
 	checkBspLive(res, drv, rng, budget)
 	checkLoggerRace(res, rng, f.Seed, budget)
+	checkCronRace(res, rng, budget)
+	checkHandoff(f, res)
 
 	// 3. mixed concurrent workload against sequential results
 	workers, nops, rounds := 4, 40, 1
 	if f.Tier == "thorough" {
-		workers, nops, rounds = 16, 160, 3
+		workers, nops, rounds = 16, 160, 6
 	}
 	if f.Search {
 		nops *= 2
@@ -659,6 +661,16 @@ func replay(f lib.Flags, res *lib.Result, drv *lib.Drv) {
 		var c bspLiveCase
 		_ = json.Unmarshal(rp.Case, &c)
 		checkBspLiveCase(res, c)
+	case "cron-race":
+		var c cronRaceCase
+		_ = json.Unmarshal(rp.Case, &c)
+		complaint, n := runCronRace(c)
+		res.Evaluations += n
+		if complaint != "" {
+			res.Violate(findCronCrosstalk, complaint, c)
+		}
+	case "handoff":
+		checkHandoff(f, res)
 	case "logger-race":
 		var c loggerRaceCase
 		_ = json.Unmarshal(rp.Case, &c)
